@@ -46,7 +46,7 @@ def check(ctx):
 
 
 MANIFEST = {
-    "technique": "static analysis: reader/writer token tables extracted from MIR (switch tables, transducers, exact byte classes) compared with a transcribed grammar table",
+    "technique": "static analysis: reader/writer token tables extracted from MIR (switch tables, transducers, exact byte classes) compared with a transcribed grammar table; who-may-call and dominance rules on the scanner / lexer (EOF flag only on UnexpectedEof, line breaks are tokens, look-ahead on demand, number text converted once)",
     "level": "Decides the finite, token-level part of grammar conformance exhaustively in both directions (escape letters and code points, keywords, "
     "character classes). The pinned tree decoded \\b and \\f to the wrong code points, which no test covers; tables like these are where an "
     "independent implementation would disagree first.",
